@@ -4,7 +4,8 @@
         for case i = first .. first+n-1 (choices derived from (seed, i) only): generate a program of
         the fragment (level 1: F1, 2: F2, 3: F3 = several top-level functions, recursion, self tail
         calls, 5: F5 = F3 + catch clauses), write <dir>/c<i>.nev (pretty-printed source) and append to <dir>/model.txt
-            @@CASE <i> level=<l> in_fragment=<0|1> nparams=<k> args=<a1>,<a2>,…
+            @@CASE <i> level=<l> in_fragment=<0|1> in_proved=<0|1> nparams=<k> args=<a1>,<a2>,…
+                 in_fragment = the tie's predicate prog_in_F4, in_proved = the fragment predicate of the level's theorem
             C <opcode number> <w0> <w1>     one per instruction of the model's WHOLE module image
                                             (compile_program: prelude, entry stub, stdlib bodies,
                                             the program's functions; linked)
@@ -46,8 +47,14 @@ let gen_case oc dir seed level i =
   output_string f src; close_out f;
   let args = List.init np (fun _ -> Cgen.small_int st) in
   let code = compile_program prog in
-  Printf.fprintf oc "@@CASE %d level=%d in_fragment=%d nparams=%d args=%s\n" i level
-    (if prog_in_F (nat_of_int level) prog then 1 else 0) np (String.concat "," (List.map string_of_int args));
+  (* the fragment predicate of the THEOREM of this level: 4 -> compile_program_correct_F4 (prog_in_P 5 || prog_in_P 6),
+     7 -> F7 (prog_in_P 7), 8 -> F8 (prog_in_P 8) *)
+  let proved =
+    match level with
+    | 4 -> prog_in_P (nat_of_int 5) prog || prog_in_P (nat_of_int 6) prog
+    | l -> prog_in_P (nat_of_int l) prog in
+  Printf.fprintf oc "@@CASE %d level=%d in_fragment=%d in_proved=%d nparams=%d args=%s\n" i level
+    (if prog_in_F (nat_of_int level) prog then 1 else 0) (if proved then 1 else 0) np (String.concat "," (List.map string_of_int args));
   List.iter (fun ins ->
       Printf.fprintf oc "C %d %d %d\n" (int_of_n (n_of_opcode ins.r_op)) (int_of_z ins.r_w0) (int_of_z ins.r_w1)) code;
   List.iter (fun (b, h) -> Printf.fprintf oc "X %d %d\n" (int_of_nat b) (int_of_nat h)) (exc_table prog);
